@@ -83,7 +83,10 @@ CLAIMS = {
              "with the code's next_cmc formula: any two histories storing the same set of distinct chunks, "
              "in ANY order, never raise and close to identical data bytes and index rows (hence identical "
              "shard files); reading the closed minishard back returns the stored bytes for every stored "
-             "id, an empty payload for skipped ids and nothing beyond the last one. Tie: after every store "
+             "id, an empty payload for skipped ids and nothing beyond the last one; FILE LEVEL: the package's "
+             "own reader (populate_minishard_dict + fetch_cmc_chunk) applied to the file Shard.close writes "
+             "returns the stored bytes of every stored chunk for ANY set of present minishards and any bit "
+             "triple (also in the F8 layout where the specification reader fails). Tie: after every store "
              "the real MiniShard's state (_appended, _last_chunk_id, buffered keys, data length, header "
              "rows) is compared with the Lean state machine, both buffering strategies; whole datasets are "
              "written twice (different order/strategy), compared byte for byte with each other and with "
